@@ -22,6 +22,10 @@ SCHEMAS = {
     "scale-bound": ([_x, _lo, _hi, _q], z3.Implies(z3.And(_q >= 1, _lo <= _x, _x <= _hi), z3.And(_lo * _q <= _x * _q, _x * _q <= _hi * _q))),
     # floor quotient by a modulus that bounds the dividend in absolute value (two's complement wrap is the identity)
     "div-range": ([_x, _q], z3.Implies(z3.And(_q > 0, -_q <= _x, _x < _q), z3.And(z3.Implies(_x >= 0, _x / _q == 0), z3.Implies(_x < 0, _x / _q == -1)))),
+    # scaling dividend and modulus by the same positive factor
+    "mod-scale": ([_x, _p, _q], z3.Implies(z3.And(_p > 0, _q > 0), (_x * _q) % (_p * _q) == _q * (_x % _p))),
+    "div-scale": ([_x, _p, _q], z3.Implies(z3.And(_p > 0, _q > 0), (_x * _q) / (_p * _q) == _x / _p)),
+    "div-div": ([_x, _p, _q], z3.Implies(z3.And(_p > 0, _q > 0), (_x / _p) / _q == _x / (_p * _q))),
     # product of two bounded non-negative integers
     "product-bound": ([_x, _p, _y, _q], z3.Implies(z3.And(0 <= _x, _x <= _p, 0 <= _y, _y <= _q), z3.And(0 <= _x * _y, _x * _y <= _p * _q))),
     # product of two integers bounded in absolute value
